@@ -393,7 +393,7 @@ fn leaf_pwb_masks() {
     assert!(frag_leaves::pwb_mask_threshold(&s) == mask80(&s, 34));
 }
 #[kani::proof]
-#[kani::unwind(74)]
+#[kani::unwind(8)]
 fn leaf_small_vectors() {
     // lift_waveform: big-endian i16 view of slice[32..32+n]
     let s: [u8; 38] = kani::any();
@@ -412,7 +412,9 @@ fn leaf_small_vectors() {
     let (x, y, z): (u16, u16, u16) = (kani::any(), kani::any(), kani::any());
     kani::assume(x < 79 && y < 79 && z < 79);
     let ids = frag_leaves::pwb_ids(vec![x, y, z]);
-    assert!(ids.len() == 3 && chan_key(ids[0]) == chan_of(z + 1) && chan_key(ids[1]) == chan_of(y + 1) && chan_key(ids[2]) == chan_of(x + 1));
+    use crate::padwing::ChannelId;
+    assert!(ids.len() == 3 && ids[0] == ChannelId::try_from(z + 1).unwrap() && ids[1] == ChannelId::try_from(y + 1).unwrap()
+        && ids[2] == ChannelId::try_from(x + 1).unwrap());      // reversed, each through the readout map (proved complete separately)
     // lift_any_nonzero
     let p: [u8; 3] = kani::any();
     let k: usize = kani::any();
